@@ -250,7 +250,7 @@ PROPS = {
     "C14": {
         "properties": ["C14", "C14_envelope", "C14_wire", "C14_tokens"],
         "domains": [
-            dom("c14env", "Model.RunEnvelopeChecked", 30, 600),
+            dom("c14env", "Model.RunEnvelopeChecked", 16, 600),
             dom("c12", "Model.RunWire", 50, 800),
             dom("c14fuzz", "", 250, 6000, model=False),
         ],
